@@ -3,7 +3,8 @@ Line-protocol driver for the C19 model (lazy lists).  Parsing glue only.
 
 prog := B b n | M f prog | E k f₁…f_k prog | SI k i₁…i_k prog | SS a b c prog   (a,b,c ∈ int | N)
       | R n prog | A prog prog | AP k v₁…v_k prog | C prog
-ops  := all prog        → ok n v₀ log₀ v₁ log₁ …   | err index|value
+ops  := heap k hop₁ … hop_k → ok ncells | len v… | len v… (every list object after the whole history)
+        all prog        → ok n v₀ log₀ v₁ log₁ …   | err index|value
         get i prog      → ok v log                 | err …
         ref prog        → ok n v₀ v₁ …   (ordinary-list semantics) | err …
 log  := `-` or comma separated  a:b:i  /  c:f:arg
@@ -36,6 +37,20 @@ partial def pProg : P Prog := do
   | "C" => do let p ← pProg; pure (.copy p)
   | _ => failure
 
+def pHOp : P HOp := do
+  let t ← tok
+  match t with
+  | "hb" => do let b ← pNat; let n ← pNat; pure (.base b n)
+  | "hm" => do let f ← pNat; let a ← pNat; pure (.map f a)
+  | "he" => do let fs ← pList pNat; let a ← pNat; pure (.mapEach fs a)
+  | "hsi" => do let l ← pList pInt; let a ← pNat; pure (.select (.ints l) a)
+  | "hss" => do let a ← pOInt; let b ← pOInt; let c ← pOInt; let x ← pNat; pure (.select (.slice a b c) x)
+  | "hr" => do let n ← pNat; let a ← pNat; pure (.rep n a)
+  | "ha" => do let a ← pNat; let b ← pNat; pure (.add a b)
+  | "hp" => do let vs ← pList pInt; let a ← pNat; pure (.addPlain a vs)
+  | "hc" => do let a ← pNat; pure (.copy a)
+  | _ => failure
+
 def fmtEv : Ev → String
   | .acc b i => s!"a:{b}:{i}"
   | .call f a => s!"c:{f}:{a}"
@@ -60,6 +75,12 @@ def step (toks : List String) : String :=
     | some p => match p.ref envD with
       | .error e => fmtErr e
       | .ok vs => s!"ok {vs.length}" ++ String.join (vs.map fun v => s!" {v}")
+  | "heap" :: rest => match runP (pList pHOp) rest with
+    | none => "bad-op"
+    | some ops =>
+      let h := hrun [] ops
+      s!"ok {h.length}" ++ String.join (h.map fun ts =>
+        s!" | {ts.length}" ++ String.join (ts.map fun t => s!" {t.eval envD}"))
   | _ => "bad-op"
 
 end MenpoModel.Drive.C19
